@@ -124,6 +124,75 @@ Theorem C09_history : forall lhash cfgs pre i r now w' stored,
 Proof. exact history_authz_own. Qed.
 Print Assumptions C09_history.
 
+(* ---- hybrid and implicit flows: EVERY member of a front-channel response is bound to the flow of its state ----
+   Response types "code id_token", "code token", "code id_token token", "id_token token", "id_token": the
+   response names a state and carries up to three more members (code, ID Token, access token); the adversary
+   recombines them member by member out of the genuine artefacts of several pending flows
+   (Model/RpState.v flow / hybrid / hybrid_response).  What is accepted and STORED with a signed ID Token: the
+   code and the access token stored are the ones the token's c_hash and at_hash cover - both, independently
+   (hash rules of Model/IdToken.v, property C08). *)
+Theorem C09_authz_members_hashed : forall lhash c r now c' stored,
+  step_authz lhash c r now = (c', Ok stored) -> has_key (PS "error") stored = false ->
+  exists d0, from_dict authz_resp_params (r_params r) [] = Ok d0 /\
+    assoc (PS "state") stored = assoc (PS "state") d0 /\
+    assoc (PS "code") stored = assoc (PS "code") d0 /\
+    assoc (PS "access_token") stored = assoc (PS "access_token") d0 /\
+    assoc (PS "id_token") stored = assoc (PS "id_token") d0 /\
+    (forall s, assoc (PS "id_token") stored = Some (VStr s) ->
+       exists v, assoc (verified_name (PS "id_token")) stored = Some v) /\
+    (forall v, assoc (verified_name (PS "id_token")) stored = Some v ->
+       exists t vd, r_idt r = Some t /\ v = VDict vd /\
+         from_dict idtoken_params (t_claims t) [] = Ok vd /\
+         (t_alg t <> PS "none" ->
+            (forall x, assoc (PS "code") stored = Some (VStr x) ->
+               assoc (PS "c_hash") vd = Some (VStr (lhash (hash_bits (t_alg t)) x))) /\
+            (forall x, assoc (PS "access_token") stored = Some (VStr x) ->
+               assoc (PS "at_hash") vd = Some (VStr (lhash (hash_bits (t_alg t)) x))))).
+Proof. exact step_authz_members. Qed.
+Print Assumptions C09_authz_members_hashed.
+
+(* The binding of every member.  Universe fs of flows whose artefacts are genuine (the ID Token of a flow states
+   only that flow's nonce and the left hashes of that flow's code and access token) and pairwise separate
+   (fresh nonces, no hash collision among the issued codes / access tokens).  A response recombined from them
+   member by member (state of A; code, ID Token, access token each of ANY flow, present or absent), delivered
+   to a client where the flow named by the state is pending with its own nonce, that carries a signed ID Token
+   and is accepted: the ID Token, the code and the access token are ALL the artefacts of the flow the state
+   names, what is stored under that state are that flow's own code and access token, and only that record
+   changes (with C09_reject_changes_nothing: a refused recombination leaves the pending flow as it was). *)
+Theorem C09_hybrid_members_own : forall lhash fs w i h now w' stored,
+  separate_flows lhash fs -> (forall f, In f fs -> genuine_flow lhash f) -> hybrid_within fs h ->
+  (forall c rec, assoc i w = Some c -> db_get (cl_db c) (fl_state (hy_state h)) = Ok rec ->
+                 assoc (PS "nonce") rec = Some (VStr (fl_nonce (hy_state h)))) ->
+  step lhash w (OAuthz i (hybrid_response h) now) = (w', Ok stored) -> has_key (PS "error") stored = false ->
+  forall fi, hy_idt h = Some fi -> t_alg (fl_idt fi) <> PS "none" ->
+    hybrid_own h = true /\
+    (forall g, hy_code h = Some g -> assoc (PS "code") stored = Some (VStr (fl_code (hy_state h)))) /\
+    (forall g, hy_atok h = Some g -> assoc (PS "access_token") stored = Some (VStr (fl_atok (hy_state h)))) /\
+    exists c, assoc i w = Some c /\
+      w' = w_set w i (mkClient (cl_cfg c) (db_update (cl_db c) (fl_state (hy_state h)) stored) (cl_map c)).
+Proof. exact world_hybrid_members_own. Qed.
+Print Assumptions C09_hybrid_members_own.
+
+(* non-vacuity: the hypotheses are satisfiable (two concrete "code id_token token" flows, a toy injective
+   hash), the genuine response of flow A is accepted, and each single foreign member is refused with nothing
+   changed: access token of B (at_hash), code of B (c_hash), ID Token of B *)
+Example C09_hybrid_hypotheses_satisfiable :
+  separate_flows ex_lhash [ex_flow_a; ex_flow_b] /\ (forall f, In f [ex_flow_a; ex_flow_b] -> genuine_flow ex_lhash f).
+Proof. exact ex_flows_separate_genuine. Qed.
+
+Example C09_hybrid_nonvacuous :
+  let c0 := ex_two_flows (ex_cfg None None false) in
+  let A := ex_flow_a in let B := ex_flow_b in
+  is_ok (snd (step_authz ex_lhash c0 (hybrid_response (mkHybrid A (Some A) (Some A) (Some A))) ex_now)) = true /\
+  step_authz ex_lhash c0 (hybrid_response (mkHybrid A (Some A) (Some A) (Some B))) ex_now = (c0, Err E_AtHashError) /\
+  step_authz ex_lhash c0 (hybrid_response (mkHybrid A (Some B) (Some A) (Some A))) ex_now = (c0, Err E_CHashError) /\
+  step_authz ex_lhash c0 (hybrid_response (mkHybrid A (Some B) (Some A) (Some B))) ex_now = (c0, Err E_AtHashError) /\
+  fst (step_authz ex_lhash c0 (hybrid_response (mkHybrid A (Some A) (Some B) (Some A))) ex_now) = c0 /\
+  is_ok (snd (step_authz ex_lhash c0 (hybrid_response (mkHybrid A (Some A) (Some B) (Some A))) ex_now)) = false /\
+  is_ok (snd (step_authz ex_lhash c0 (hybrid_response (mkHybrid A (Some B) (Some B) (Some B))) ex_now)) = false /\
+  is_ok (snd (step_authz ex_lhash c0 (hybrid_response (mkHybrid B (Some B) (Some B) (Some B))) ex_now)) = true.
+Proof. vm_compute. repeat split. Qed.
+
 (* non-vacuity: two issuers, one pending flow each; the response for the flow of issuer 1 is accepted by
    client 1, refused (KeyError, nothing changes) when delivered to client 2, refused with a wrong iss
    parameter; an ID token carrying the nonce of the other pending flow of the same client is refused *)
